@@ -113,6 +113,10 @@ pub trait Sys {
     fn raw_key(&self, probes: &[String], out: &mut Vec<u8>);
     /// raw snapshots of the base filesystems (label, snapshot)
     fn raws(&self, probes: &[String]) -> Vec<(String, Snap)>;
+    /// what the filesystem directly below a top-level altroot shows outside `p`
+    fn outside(&self, _p: &str) -> Vec<String> {
+        vec![]
+    }
 }
 
 /// A sync stack; operations and observations are made below `prefix` of its root.
@@ -165,6 +169,9 @@ impl Sys for SyncSys {
             .iter()
             .map(|b| (b.label.clone(), snapshot(&b.raw, &self.base_probes(b, probes))))
             .collect()
+    }
+    fn outside(&self, p: &str) -> Vec<String> {
+        self.built.outside_altroot(p)
     }
 }
 
@@ -275,7 +282,7 @@ impl PairSpace {
         sa: &Snap,
         sb: &Snap,
         log_a: &[LogEntry],
-        raws_before: &[(String, Snap)],
+        outside_before: &[String],
         a: &dyn Sys,
         b: &dyn Sys,
     ) -> Vec<(String, String)> {
@@ -364,13 +371,10 @@ impl PairSpace {
                     ));
                 }
             }
-            // confinement: nothing outside P changed
-            for ((l, x), (_, y)) in raws_before.iter().zip(ra.iter()) {
-                let outside = |s: &Snap| -> Vec<String> { s.dump().into_iter().filter(|line| !line_is_below(line, p)).collect() };
-                // directory listings of ancestors of P are allowed to be identical only
-                if outside(x) != outside(y) {
-                    v.push((format!("{}|changed-outside-altroot", head), format!("{} changed {} outside {:?}: before {:?} after {:?}", op.show(), l, p, outside(x), outside(y))));
-                }
+            // confinement: nothing outside P changed in the filesystem the altroot is rooted in
+            let after_outside = a.outside(p);
+            if *outside_before != after_outside {
+                v.push((format!("{}|changed-outside-altroot", head), format!("{} changed the underlying filesystem outside {:?}: before {:?} after {:?}", op.show(), p, outside_before, after_outside)));
             }
         }
         v
@@ -418,7 +422,10 @@ impl Space for PairSpace {
             std::process::exit(2);
         }
         let before = a0.observe(probes);
-        let raws_before = if matches!(self.mode, PairMode::AltTwin { .. }) { a0.raws(probes) } else { vec![] };
+        let outside_before = match &self.mode {
+            PairMode::AltTwin { p } => a0.outside(p),
+            _ => vec![],
+        };
         for op in &self.ops {
             if !self.op_enabled(op, &before) {
                 continue;
@@ -432,7 +439,7 @@ impl Space for PairSpace {
             let sa = a.observe(probes);
             let sb = b.observe(probes);
             e.transitions += 1;
-            let vs = self.compare(op, &before, &oa, &ob, &sa, &sb, &log_a, &raws_before, a.as_ref(), b.as_ref());
+            let vs = self.compare(op, &before, &oa, &ob, &sa, &sb, &log_a, &outside_before, a.as_ref(), b.as_ref());
             let diverged = !vs.is_empty();
             for (sig, summary) in vs {
                 *e.vio_counts.entry(sig.clone()).or_insert(0) += 1;
